@@ -54,3 +54,7 @@ simple_frame_codec!(
     },
     max_stream_data_tag!()
 );
+
+#[cfg(all(aws_s2n_quic_verif, test))]
+#[path = "/verif/harness/core/frame_max_stream_data.rs"]
+mod verif;
